@@ -236,3 +236,36 @@ def age(rng, traj, p=0.5):
         traj.check()
         done.append("get_infos+check")
     return done
+
+
+import contextlib
+
+
+@contextlib.contextmanager
+def logging_state(rng, p=0.3):
+    """
+    With probability p the case runs with evo's logger configured the way every evo command
+    line tool (and any API user who called log.configure_logging) leaves it: level DEBUG with
+    handlers attached - instead of the harness default (silenced).  Process state of this kind
+    must not influence results.
+    """
+    import io
+    import logging
+    import sys
+    from vmon import core
+    if rng.random() >= p:
+        yield "silenced"
+        return
+    from evo.tools import log
+    out, err = sys.stdout, sys.stderr
+    sys.stdout, sys.stderr = io.StringIO(), io.StringIO()
+    try:
+        log.configure_logging(verbose=bool(rng.random() < .5), silent=bool(rng.random() < .5),
+                              debug=bool(rng.random() < .5))
+        yield "configured (DEBUG)"
+    finally:
+        sys.stdout, sys.stderr = out, err
+        lg = logging.getLogger("evo")
+        for h in list(lg.handlers):
+            lg.removeHandler(h)
+        core.silence_evo_logging()
